@@ -473,7 +473,7 @@ func parentMain(id, tier string) int {
 	}
 	budget := 150 * time.Second
 	if tier == "thorough" {
-		budget = 25 * time.Minute
+		budget = 60 * time.Minute
 	}
 	if v, err := strconv.Atoi(os.Getenv("VERIF_BUDGET_S")); err == nil && v > 0 {
 		budget = time.Duration(v) * time.Second
